@@ -299,7 +299,7 @@ ADDENDA = {
 ADDENDA11 = {
     'C01': ' Nullkey family: every link population in which a referred-to instance nobody refers to holds the null of its key type '
            "('' / unset unique_id / unique_id 0) beside a referring instance that refers to nothing.",
-    'C03': ' Directory trees with pattern characters and leading dots in their names.',
+    'C03': ' Directory trees with pattern characters and leading dots in their names; the clone route also takes rows whose identifying value is unset.',
     'C04': ' Eqchain family: where clauses of two or three equality terms on `selected` incl. one attribute constrained twice '
            '(equal / different values, literals / variables, both operand orders) in select many / any / related by.',
     'C05': ' Shadow family (locals named like constants / enumerators of the host, every declaration form x every kind of read) and rescope '
@@ -322,7 +322,7 @@ ADDENDA11 = {
            'added to one built metamodel; the reference loader of every build gets the accepted input as one text.',
     'C19': ' Names family: attribute names drawn from the identifiers of the library\'s own code objects (209 quick / 351 thorough) in every '
            'creation form and route, read back and cloned.',
-    'C20': ' A second data type under the name of an existing enumeration / user type is added in every other place.',
+    'C20': ' A second data type under the name of an existing enumeration / user type is added in every other place; classes may share a number.',
 }
 for _k, _v in ADDENDA11.items():
     ADDENDA[_k] = ADDENDA.get(_k, '') + _v
